@@ -475,7 +475,23 @@ def reshape_conditionals(fn, r, stats, key):
     are the same program. Where the current spelling is not the one the reference has and the other spelling is, rewrite to the
     reference's spelling (decided by name-blind statement digests), so that rules read the form they were written for."""
     loc = set(local_names(fn))
-    have = {d for d, _ in r.get('stmts', [])}
+    import collections
+    have = collections.Counter(d for d, _ in r.get('stmts', []))
+    cur = collections.Counter(stmt_blind(x, loc)[0] for x in statements(fn))
+
+    def surplus(x):     # the current function has more statements of this shape than its reference
+        return cur[dig(x)] > have[dig(x)]
+
+    def wanted(x):      # ... and fewer of that one
+        return cur[dig(x)] < have[dig(x)]
+
+    def swap(old_, new_):
+        for o in old_:
+            cur[dig(o)] -= 1
+        for n_ in new_:
+            h_ = _header(n_)
+            if h_ is not None:
+                cur[dig(n_)] += 1
 
     def dig(s):
         h = _header(s)
@@ -494,16 +510,35 @@ def reshape_conditionals(fn, r, stats, key):
             if isinstance(s, ast.Try):
                 for hd in s.handlers:
                     hd.body = blk(hd.body)
-            if isinstance(s, ast.If) and dig(s) not in have:
-                hit = [(e, used) for e, used in _as_ifexp(s, stmts[i + 1] if i + 1 < len(stmts) else None) if dig(e) in have]
+            if isinstance(s, ast.If) and surplus(s) and len(s.body) == 1 and isinstance(s.body[0], ast.Return) and not s.orelse:
+                # a run `if c1: return a1` / `if c2: return a2` / ... / `return z`  ==  return a1 if c1 else a2 if c2 else z
+                j = i
+                while j < len(stmts) and isinstance(stmts[j], ast.If) and len(stmts[j].body) == 1 and isinstance(stmts[j].body[0], ast.Return) \
+                        and stmts[j].body[0].value is not None and not stmts[j].orelse:
+                    j += 1
+                if j - i >= 2 and j < len(stmts) and isinstance(stmts[j], ast.Return) and stmts[j].value is not None:
+                    e = stmts[j].value
+                    for k in range(j - 1, i - 1, -1):
+                        e = ast.copy_location(ast.IfExp(test=stmts[k].test, body=stmts[k].body[0].value, orelse=e), stmts[k])
+                    cand = ast.copy_location(ast.Return(value=e), s)
+                    if wanted(cand):
+                        swap(stmts[i:j + 1], [cand])
+                        out.append(cand)
+                        changed[0] += 1
+                        i = j + 1
+                        continue
+            if isinstance(s, ast.If) and surplus(s):
+                hit = [(e, used) for e, used in _as_ifexp(s, stmts[i + 1] if i + 1 < len(stmts) else None) if wanted(e)]
                 if hit:
+                    swap([s], [hit[0][0]])
                     out.append(hit[0][0])
                     changed[0] += 1
                     i += 2 if hit[0][1] else 1
                     continue
-            if isinstance(s, (ast.Assign, ast.Return)) and isinstance(s.value, ast.IfExp) and dig(s) not in have:
+            if isinstance(s, (ast.Assign, ast.Return)) and isinstance(s.value, ast.IfExp) and surplus(s):
                 t = statement_form(s)
-                if t is not s and dig(t) in have:
+                if t is not s and wanted(t):
+                    swap([s], [t])
                     out.extend(flatten_block([t]))
                     changed[0] += 1
                     i += 1
